@@ -147,7 +147,11 @@ def main():
             if cd.shape[:2] != (ch, cw) or cd[0, 0] != data[cy, cx]:
                 h.corr_fail("chunk-data", {"input": [gw, gh, tw, th, i], "impl": [list(cd.shape), float(cd[0, 0])], "model": [[ch, cw], float(data[cy, cx])]})
             # sampler index on a few exact rational sky positions (in turns), away from pixel boundaries
-            sf = smp.sampler(i)
+            try:
+                sf = smp.sampler(i)
+            except Exception as e:  # noqa
+                h.violation("sampler:chunk:raise", f"chunk {i} of a {gw}x{gh} map with {tw}x{th} tiles: building the chunk's sampler raised {type(e).__name__}: {e}", input={"map": [gw, gh, tw, th], "chunk": i})
+                continue
             for _ in range(3):
                 qlon = Fraction(rng.randrange(-3 * 997, 3 * 997), 997)
                 qlat = Fraction(rng.randrange(-249, 250), 997)
@@ -389,7 +393,14 @@ def main():
                 eps = 1e-9
                 return (u > cx + eps) & (u < cx + cw - eps) & (v > cy + eps) & (v < cy + ch - eps)
             depth = rng.randint(2, dmax)
-            check_filter("chunk", smp.filter(i), member, nm, cs, depth, f"chunk {i} ({cw}x{ch} at {cx},{cy}) of a {gw}x{gh} map with {tw}x{th} tiles, depth {depth}", {"map": [gw, gh, tw, th], "chunk": i, "depth": depth})
+            try:
+                flt_i = smp.filter(i)
+            except Exception as e:  # noqa  (a chunk grid for which no filter can be built is a failing input, not a harness error)
+                h.violation("filter:chunk:raise", f"chunk {i} ({cw}x{ch} at {cx},{cy}) of a {gw}x{gh} map with {tw}x{th} tiles: building the chunk's tile filter raised {type(e).__name__}: {e}",
+                            input={"map": [gw, gh, tw, th], "chunk": i})
+                h.case(("chunk", gw, gh, tw, th, i, depth))
+                continue
+            check_filter("chunk", flt_i, member, nm, cs, depth, f"chunk {i} ({cw}x{ch} at {cx},{cy}) of a {gw}x{gh} map with {tw}x{th} tiles, depth {depth}", {"map": [gw, gh, tw, th], "chunk": i, "depth": depth})
             h.case(("chunk", gw, gh, tw, th, i, depth))
             h.count("filter", "chunk")
 
@@ -472,6 +483,10 @@ def main():
             scale = 0.5
             w.wcs.cd = np.array([[-scale * cr, scale * sr], [scale * sr, scale * cr]])
             data = (np.arange(ny * nx, dtype=np.float32).reshape((ny, nx)) + 1.0)
+            # a few saturated (infinite) and blank pixels: values like any other for the comparison of the two routes
+            data[rng.randrange(ny), rng.randrange(nx)] = np.inf
+            data[rng.randrange(ny), :] = -np.inf if ii % 2 else np.inf
+            data[rng.randrange(ny), rng.randrange(nx)] = np.nan
             ws = samplers.WcsSampler(data, w)
             depth = 3
             base_f, base_a = os.path.join(root, f"f{ii}"), os.path.join(root, f"a{ii}")
